@@ -26,9 +26,9 @@ ORDER_OPS = ("<", "<=", ">", ">=")
 STRING_OPS = ("LIKE", "MATCHES", "ISSUBSET", "ISSUPERSET")
 KEYWORDS = {"AND", "OR", "NOT", "FOLLOWEDBY", "LIKE", "MATCHES", "ISSUPERSET", "ISSUBSET", "EXISTS", "LAST", "IN", "START",
             "STOP", "SECONDS", "true", "false", "WITHIN", "REPEATS", "TIMES"}
-IDENT_RE = re.compile(r"^[A-Za-z_][A-Za-z0-9_]*$")
-TYPE_RE = re.compile(r"^[A-Za-z_][A-Za-z0-9_-]*$")
-TS_RE = re.compile(r"^(\d{4})-(0[1-9]|1[012])-(0[1-9]|[12]\d|3[01])T([01]\d|2[0-3]):([0-5]\d):([0-5]\d|60)(?:\.(\d+))?Z$")
+IDENT_RE = re.compile(r"^[A-Za-z_][A-Za-z0-9_]*\Z")
+TYPE_RE = re.compile(r"^[A-Za-z_][A-Za-z0-9_-]*\Z")
+TS_RE = re.compile(r"^(\d{4})-(0[1-9]|1[012])-(0[1-9]|[12]\d|3[01])T([01]\d|2[0-3]):([0-5]\d):([0-5]\d|60)(?:\.(\d+))?Z\Z")
 OBS_OPS = {"oand": "AND", "oor": "OR", "ofb": "FOLLOWEDBY"}
 OBS_PREC = {"ofb": 1, "oor": 2, "oand": 3, "qual": 4, "obs": 4}
 CMP_PREC = {"or": 1, "and": 2, "cmp": 3, "exists": 3}
@@ -633,7 +633,8 @@ object_type = st.one_of(
 # names that can only be written quoted
 quoted_name = st.one_of(
     st.sampled_from(["SHA-256", "k-2", "windows-pebinary-ext", "c d", "c.d", "", "AND", "true", "LIKE", "0abc", "9", "a'b", "a\\b", "é", "x[0]",
-                     "a:b", " ", "c-'d", "-", "a-b.c", "EXISTS", "\U0001f600", "a\nb", "NOT", "x*"]),
+                     "a:b", " ", "c-'d", "-", "a-b.c", "EXISTS", "\U0001f600", "a\nb", "NOT", "x*",
+                     "na\u00efve", "gr\u00f6\u00dfe", "x\u00b2", "a\u0661", "s_\u00df", "b\n", "name\n", "_\u00e9"]),
     st.text(st.characters(exclude_categories=("Cs",)), max_size=5),
     st.text("ab-._ '\\0", min_size=1, max_size=5),
 )
@@ -771,7 +772,8 @@ def _build_pools():
     idents = ["b", "c", "name", "value", "size", "x", "dst_ref", "src_ref", "parent_ref", "opened_connection_refs", "_p", "A", "Z9", "x_y_z", "t", "h",
               "like", "and", "In", "exists", "TRUE", "not", "a1", "extensions", "key", "values", "a_ref", "Q_refs", "sections", "entropy", "data"]
     quoted = ["SHA-256", "k-2", "windows-pebinary-ext", "c d", "c.d", "", "AND", "true", "LIKE", "0abc", "9", "a'b", "a\\b", "\u00e9", "x[0]", "a:b", " ",
-              "c-'d", "-", "a-b.c", "EXISTS", "\U0001f600", "a\nb", "NOT", "x*", "b", "name", "'", "\\", "k_2", "a-b-c"]
+              "c-'d", "-", "a-b.c", "EXISTS", "\U0001f600", "a\nb", "NOT", "x*", "b", "name", "'", "\\", "k_2", "a-b-c",
+              "na\u00efve", "gr\u00f6\u00dfe", "x\u00b2", "a\u0661", "s_\u00df", "b\n", "name\n", "_\u00e9"]
     types = ["a", "file", "ipv4-addr", "network-traffic", "windows-registry-key", "x-custom-obj", "b", "_x", "A1", "x-1", "a--b", "q_", "t", "h", "x-",
              "user-account", "X-Y-Z", "and", "exists", "process", "url", "email-message", "c", "x509-certificate"]
     idxs = ["*", "*", "*", 0, 1, 2, 10, 255, 2 ** 31, 10 ** 20, 0, 1]
@@ -961,7 +963,11 @@ def text_case(draw, version=None):
     """{"ast":..., "sty":[...], "ver":"2.1"|"2.0"} -- printed with to_text(ast, sty)."""
     ver = version or draw(_S_VER)
     ast = _g_oexpr(draw, draw(_S_ODEPTH), ver)
-    return {"ast": ast, "sty": draw(style), "ver": ver}
+    case = {"ast": ast, "sty": draw(style), "ver": ver}
+    pre = draw(st.sampled_from([None, None, None, None, "equivalence", "equivalence", "edit-earlier-model"]))
+    if pre:
+        case["pre"] = pre
+    return case
 
 
 # ----------------------------------------------------------------------
